@@ -380,6 +380,26 @@ def run(ctx, idx):
         doc = ast.get_docstring(m.node) or ""
         prods = [ln.strip() for ln in doc.splitlines() if ln.strip()]
         resultless = any(p.replace(" ", "") in ("command:IDarguments",) for p in prods)
+        if not resultless and len([p for p in prods if ":" in p or p.startswith("|")]) == 1 and ":" in prods[0]:
+            # `command : <name> arguments` where <name> is a nonterminal that stands for a single ID (among other single tokens)
+            from engine.grammar import Lexicon
+            lhs_, rhs_ = prods[0].split(":", 1)
+            rhs_ = rhs_.split()
+            if lhs_.strip() == "command" and len(rhs_) == 2 and rhs_[1] == "arguments":
+                lex_ = Lexicon(idx)
+                units = {}
+                for pr in lex_.productions:
+                    if len(pr.rhs) == 1:
+                        units.setdefault(pr.lhs, set()).add(pr.rhs[0])
+                seen_, work_ = set(), [rhs_[0]]
+                while work_:
+                    x_ = work_.pop()
+                    if x_ in seen_:
+                        continue
+                    seen_.add(x_)
+                    work_ += list(units.get(x_, ()))
+                only_units = all(len(pr.rhs) == 1 for pr in lex_.productions if pr.lhs in seen_)
+                resultless = "ID" in seen_ and only_units
         if not (m.name.startswith("p_") and resultless and len([p for p in prods if ":" in p or p.startswith("|")]) == 1):
             ok = False
             why = "the EEMS 2.0 flag is set in %s, whose production is not the result-less command form" % m.name
